@@ -15,7 +15,7 @@ RULE = ("seeded edit histories (3-40 ops, state-directed fault ops) over a unive
 COMPONENTS = sessioncheck.COMPONENTS
 TECHNIQUE = 'SESSION: seeded search over edit histories incl. refused ops; tree invariant monitor after every op'
 LEVEL_TEXT = 'Seeded exploration: tens of thousands (quick) to millions (thorough) of generated edit histories over all structural entry points, including operations provoked to fail, with the four tree clauses and termination of the traversals checked on the whole universe after every single operation. A clean batch is evidence, not proof; every failure is minimised and replayable.'
-LEVEL_NOTE = "Trusts the harness' bounded walk and the public getters (.parent, .sections, .properties, .document); histories are bounded to 40 ops over at most 40 objects; list methods inherited from list are outside the quantifier."
+LEVEL_NOTE = "Trusts the harness' bounded walk and the public getters (.parent, .sections, .properties, .document); histories are bounded to 40 ops over at most 40 objects (plus, in some runs, one branch of 60 to 140 nested Sections); list methods inherited from list are outside the quantifier."
 DESIGN_REF = 'DESIGN.md 3.3, 4 (C03)'
 ASSUMPTIONS = ["list methods inherited from list (del, pop, list.insert, sort ...) on the live child "
                "lists are not operations of the property's quantifier and are not issued",
